@@ -118,6 +118,14 @@ def _dropname(e):
     return None
 
 
+def _droptokchar(e):
+    for t in e.get('toks', []):
+        if t[0] in (8, 9) and len(t[1]) >= 1:
+            t[1] = t[1][1:]
+            return e
+    return None
+
+
 PROPS = {
     'C11': dict(
         tv=dict(module='ScannerTrace', cfg='ScannerTrace.cfg'),
@@ -195,6 +203,13 @@ PROPS = {
             dict(part='tmpl', module='MustacheTrace', cfg='MustacheTrace.C18.cfg')],
         mc=[dict(module='CollectionsMC', cfg='CollectionsMC.cfg')],
         corrupt=[('drop a reported name', _dropname)],
+        exhaustive_part=True,
+        harness_prefix='HARNESS:',
+    ),
+    'C09': dict(
+        tv=dict(module='CsvTrace', cfg='CsvTrace.cfg'),
+        mc=[dict(module='CsvMC', cfg={'quick': 'CsvMC.quick.cfg', 'thorough': 'CsvMC.thorough.cfg'}, timeout=1500)],
+        corrupt=[('drop a character of a token value', _droptokchar)],
         exhaustive_part=True,
         harness_prefix='HARNESS:',
     ),
@@ -335,5 +350,17 @@ DOC = {
         note='Trusted: TLC, Json module, recorder (object identity via pointers), folding of names done by the recorder with strings.ToLower. '
              'Remove/Get with an invalid index is API misuse and not driven.',
         technique='TLA+ list model + TLC model checking (CollectionsMC) + TLC trace validation of collections, expression names and template names',
+    ),
+    'C09': dict(
+        level='Csv.tla specifies writing (per field raw or quote-encoded with a chosen quote, separators, one line-ending spelling) and '
+              'regrouping (rows at end-of-line tokens, fields at separator symbols, a field = its single word/quoted token or empty), with a '
+              'reference CSV lexer; CsvMC.tla model-checks Regroup(Lex(Write(t))) = t for every small table, plan and line ending. The real '
+              'CsvTokenizer (decoding on) tokenizes texts written from all 2-row tables over the significant characters with every line '
+              'ending, and random tables up to 6x6 over the BMP under several separator/quote configurations; CsvTrace.tla first validates '
+              'the written text against Csv.Write (generator validation) and then requires the tokens to regroup to exactly the table, '
+              'each line ending being one end-of-line token.',
+        note='Trusted: TLC, Json module, recorder. A trailing line ending, raw fields containing quote characters and characters above '
+             'U+FFFE are outside the statement and not generated; one line-ending style per table.',
+        technique='TLA+ framing spec (Csv.Write/Regroup) + TLC model checking of the framing (CsvMC) + TLC trace validation of the real CSV tokenizer',
     ),
 }
